@@ -1,1 +1,201 @@
-fn main(){}
+//! schedsim — controlled thread schedules (shuttle) over TurDB's own code.
+//!
+//! The `sched` build flavour (see ../shadow/turdb) compiles /repo unchanged with parking_lot
+//! replaced by a shuttle-backed shim and the atomics of the concurrency-critical files switched to
+//! shuttle's: every lock operation, condvar wait/notify and atomic access is a scheduling point
+//! decided by a seeded scheduler. A failing schedule is recorded choice by choice and replayed
+//! exactly.
+
+mod determ;
+mod scen;
+mod scen_commit;
+mod sched;
+
+use simcore::driver::{self, CheckSpec, Engine};
+use simcore::pool::{self, JobStatus, PoolCfg};
+use simcore::Tier;
+use std::time::Duration;
+
+struct PropSpec {
+    id: &'static str,
+    profile: &'static str,
+    quick_runs: u64,
+    thorough_runs: u64,
+}
+
+const PROPS: &[PropSpec] = &[
+    PropSpec { id: "C35", profile: "cache", quick_runs: 600, thorough_runs: 8000 },
+    PropSpec { id: "C36", profile: "locks", quick_runs: 600, thorough_runs: 8000 },
+    PropSpec { id: "C37", profile: "commit", quick_runs: 320, thorough_runs: 5000 },
+    PropSpec { id: "C38", profile: "commit", quick_runs: 320, thorough_runs: 5000 },
+    PropSpec { id: "C39", profile: "budget", quick_runs: 600, thorough_runs: 8000 },
+];
+
+fn arg_value(args: &[String], flag: &str) -> Option<String> {
+    args.iter().position(|a| a == flag).and_then(|i| args.get(i + 1).cloned())
+}
+fn env_u64(k: &str) -> Option<u64> {
+    std::env::var(k).ok().and_then(|v| v.parse().ok())
+}
+fn workers() -> usize {
+    env_u64("VSIM_WORKERS")
+        .map(|v| v as usize)
+        .unwrap_or_else(|| std::thread::available_parallelism().map(|n| n.get()).unwrap_or(8).min(16))
+}
+
+fn spec_for(ps: &PropSpec, args: &[String]) -> CheckSpec {
+    let tier = Tier::parse(&arg_value(args, "--tier").or_else(|| std::env::var("VERIF_TIER").ok()).unwrap_or_else(|| "quick".into()));
+    let seed = arg_value(args, "--seed").and_then(|s| s.parse().ok()).or_else(|| env_u64("VERIF_SEED")).unwrap_or(1);
+    let runs = arg_value(args, "--runs")
+        .and_then(|s| s.parse().ok())
+        .or_else(|| env_u64("VSIM_RUNS"))
+        .unwrap_or(if tier == Tier::Thorough { ps.thorough_runs } else { ps.quick_runs });
+    CheckSpec {
+        property: ps.id.to_string(),
+        profile: format!("{}@{}", ps.profile, ps.id),
+        tier,
+        seed,
+        runs,
+        workers: workers(),
+        run_timeout: Duration::from_secs(if tier == Tier::Thorough { 300 } else { 120 }),
+        batch_budget: Duration::from_secs(if tier == Tier::Thorough { 1200 } else { 120 }),
+        level: "exploration".to_string(),
+        also_owns: vec![],
+        min_budget_runs: if tier == Tier::Thorough { 400 } else { 200 },
+        min_budget_wall: Duration::from_secs(if tier == Tier::Thorough { 240 } else { 60 }),
+        max_minimise: if tier == Tier::Thorough { 10 } else { 5 },
+    }
+}
+
+fn cmd_check(args: &[String]) -> i32 {
+    let id = match args.first() {
+        Some(i) => i.clone(),
+        None => {
+            eprintln!("usage: vsched check <ID> [--tier quick|thorough] [--seed N] [--runs N]");
+            return 2;
+        }
+    };
+    let ps = match PROPS.iter().find(|p| p.id == id) {
+        Some(p) => p,
+        None => {
+            eprintln!("unknown property {}", id);
+            return 2;
+        }
+    };
+    let spec = spec_for(ps, args);
+    let engine = sched::SchedSim;
+    if args.iter().any(|a| a == "--mkreplays") {
+        return driver::make_known_replays(&engine, &spec);
+    }
+    driver::run_check(&engine, &spec)
+}
+
+fn cmd_survey(args: &[String]) -> i32 {
+    if args.len() < 2 {
+        eprintln!("usage: vsched survey <profile@prop> <n> [seed] [tier]");
+        return 2;
+    }
+    let engine = sched::SchedSim;
+    let profile = args[0].clone();
+    let n: u64 = args[1].parse().unwrap_or(100);
+    let seed: u64 = args.get(2).and_then(|s| s.parse().ok()).unwrap_or(1);
+    let tier = Tier::parse(args.get(3).map(|s| s.as_str()).unwrap_or("quick"));
+    let base = pool::default_scratch_base();
+    let cfg = PoolCfg { workers: workers(), timeout: Duration::from_secs(120), scratch: base.join("survey"), deadline: None };
+    let jobs: Vec<u64> = (0..n).collect();
+    let t0 = std::time::Instant::now();
+    let res = pool::run_jobs(&cfg, &jobs, |j| engine.run_seeded(&profile, seed, j, tier));
+    pool::cleanup(&base);
+    let mut hist: std::collections::BTreeMap<String, (u64, u64, String)> = Default::default();
+    let mut clean = 0;
+    let mut scheds = 0u64;
+    for (j, st) in res {
+        match st {
+            JobStatus::Done(o) => {
+                scheds += o.counters.get("schedules").copied().unwrap_or(0);
+                if let Some(e) = &o.harness_error {
+                    hist.entry(format!("HARNESS {}", e)).or_insert((0, j, String::new())).0 += 1;
+                }
+                if o.violations.is_empty() {
+                    clean += 1;
+                }
+                for v in &o.violations {
+                    hist.entry(v.sig_string()).or_insert((0, j, v.detail.clone())).0 += 1;
+                }
+            }
+            other => {
+                hist.entry(format!("{:?}", other).chars().take(300).collect()).or_insert((0, j, String::new())).0 += 1;
+            }
+        }
+    }
+    let mut v: Vec<_> = hist.into_iter().collect();
+    v.sort_by_key(|(_, (c, _, _))| std::cmp::Reverse(*c));
+    println!("{} runs, {} clean, {} schedules, {:.1}s", n, clean, scheds, t0.elapsed().as_secs_f64());
+    for (sig, (c, j, d)) in v {
+        let d: String = d.chars().take(600).collect();
+        println!("{:5}x run{} {}\n        {}", c, j, sig, d);
+    }
+    0
+}
+
+fn cmd_selfcheck(args: &[String]) -> i32 {
+    if args.len() < 3 || args[0] != "determinism" {
+        eprintln!("usage: vsched selfcheck determinism <profile@prop> <n> [seed]");
+        return 2;
+    }
+    let engine = sched::SchedSim;
+    let profile = args[1].clone();
+    let n: u64 = args[2].parse().unwrap_or(64);
+    let seed: u64 = args.get(3).and_then(|s| s.parse().ok()).unwrap_or(1);
+    let base = pool::default_scratch_base();
+    let jobs: Vec<u64> = (0..n).collect();
+    let mut hashes: Vec<Vec<(u64, String)>> = vec![];
+    for (round, w) in [(0, 4usize), (1, 16usize)] {
+        let cfg = PoolCfg { workers: w, timeout: Duration::from_secs(120), scratch: base.join(format!("det{}", round)), deadline: None };
+        if round == 1 {
+            std::env::set_var("VSIM_PAD", "x".repeat(777));
+        }
+        let res = pool::run_jobs(&cfg, &jobs, |j| engine.run_seeded(&profile, seed, j, Tier::Quick));
+        hashes.push(
+            res.into_iter()
+                .map(|(j, st)| match st {
+                    JobStatus::Done(o) => (j, format!("{:016x}/{}v/{:?}", o.events_hash, o.violations.len(), o.harness_error)),
+                    other => (j, format!("{:?}", other).chars().take(60).collect()),
+                })
+                .collect(),
+        );
+    }
+    pool::cleanup(&base);
+    let mut bad = 0;
+    for (a, b) in hashes[0].iter().zip(hashes[1].iter()) {
+        if a != b {
+            println!("DIVERGED run {}: {} vs {}", a.0, a.1, b.1);
+            bad += 1;
+        }
+    }
+    println!("determinism: {} seed pairs, {} diverged", n, bad);
+    if bad > 0 {
+        1
+    } else {
+        0
+    }
+}
+
+fn main() {
+    let args: Vec<String> = std::env::args().collect();
+    simcore::noaslr::ensure();
+    let code = match args.get(1).map(|s| s.as_str()) {
+        Some("check") => cmd_check(&args[2..]),
+        Some("replay") => match args.get(2) {
+            Some(p) => driver::replay(&sched::SchedSim, std::path::Path::new(p)),
+            None => 2,
+        },
+        Some("survey") => cmd_survey(&args[2..]),
+        Some("selfcheck") => cmd_selfcheck(&args[2..]),
+        _ => {
+            eprintln!("usage: vsched check|replay|survey|selfcheck ...");
+            2
+        }
+    };
+    std::process::exit(code);
+}
